@@ -44,7 +44,8 @@ func RunChild[C any](t *testing.T, unit string, gen func(*rapid.T) C, run func(C
 		}
 		_ = os.Remove(out)
 		cmd := exec.Command(os.Args[0], "-test.run", "^"+testName+"$", "-test.count=1", "-test.timeout=0")
-		cmd.Env = append(os.Environ(), "VERIF_CHILD_UNIT="+unit, "VERIF_CHILD_IN="+in, "VERIF_CHILD_OUT="+out)
+		// TMPDIR: rain writes a goroutine dump to os.TempDir() when it crashes; keep it inside the run's scratch directory
+		cmd.Env = append(os.Environ(), "VERIF_CHILD_UNIT="+unit, "VERIF_CHILD_IN="+in, "VERIF_CHILD_OUT="+out, "TMPDIR="+dir)
 		var stderr bytes.Buffer
 		cmd.Stdout = &stderr
 		cmd.Stderr = &stderr
